@@ -1,7 +1,7 @@
 (** C25 correspondence case: one real checkout (LocalWorkingCopy through
     testutils::TestWorkspace) with the full disk listing before and after, and the boolean
     property checkers evaluated on the real result. Definitions only. *)
-From Verif Require Export Base.Prelude Base.FsC Base.WcC.
+From Verif Require Export Base.Prelude Base.FsC Base.WcC Base.WcNames.
 Local Open Scope string_scope.
 Local Open Scope list_scope.
 
@@ -17,8 +17,6 @@ Record case := mk_case {
   c_states1 : list (path * bool);     (* file states after *)
   c_outside_ok : bool;                (* everything outside the workspace root is unchanged *)
 }.
-
-Definition is_some {A} (o : option A) : bool := match o with Some _ => true | None => false end.
 
 (** The old tree tracks a file at [p] and the checkout changes or removes it. *)
 Definition tracked_changed (d : list dentry) (p : path) : bool :=
@@ -75,7 +73,7 @@ Definition skipped_b (d : list dentry) (f0 : fs) (r : result) (states1 : list (p
 (** Nothing at or below a name [.git] / [.jj] (at any depth) was created, changed or
     removed. *)
 Definition reserved_b (f0 f1 : fs) : bool :=
-  forallb (fun qe => negb (has_reserved (fst qe))
+  forallb (fun qe => negb (has_reserved reserved_names (fst qe))
                      || option_eqb entry_eqb (lookup f0 (fst qe)) (lookup f1 (fst qe)))
           (f0 ++ f1).
 
@@ -94,7 +92,7 @@ Definition states_eqb (a b : list (path * bool)) : bool := states_sub a b && sta
 (** detail: 1 diff order, 2 result, 3 disk, 4 file states, 5 trace has an unsafe call *)
 Definition check_case (c : case) : N :=
   let d := diff_fs (matches (c_sparse c)) (c_t1 c) (c_t2 c) in
-  let o := run_update (c_disk0 c) (c_states0 c) d in
+  let o := run_update reserved_names (c_disk0 c) (c_states0 c) d in
   let ok_diff := list_eqb dentry_eqb d (c_diff c) in
   let ok_res := result_eqb (o_res o) (c_res c) in
   let ok_fs := fs_eqb (o_fs o) (c_disk1 c) in
